@@ -24,6 +24,33 @@ def subtle(rng):
 ATOMS = [None, 0, 1, 1.0, True, False, 'x', '', NAN, b'x']
 
 
+class Registered:
+    """A user type whose equality is registered with the library's Comparator (its documented extension point) - late, when
+    the library has been comparing values for a while."""
+
+    def __init__(self, amount):
+        self.amount = amount
+
+    def __eq__(self, other):
+        return type(other) is Registered and other.amount == self.amount
+
+    def __hash__(self):
+        return hash(self.amount)
+
+    def __repr__(self):
+        return f'Registered({self.amount})'
+
+
+REGISTERED = [False]
+
+
+def register_late(param, idx):
+    if not REGISTERED[0] and idx % 5 == 3:
+        import operator
+        param.parameterized.Comparator.equalities[Registered] = operator.eq
+        REGISTERED[0] = True
+
+
 def small_container(rng, depth=0):
     """Containers over a tiny alphabet: old/new pairs collide often, differing in a single key, position, type or None."""
     c = rng.randrange(4 if depth < 2 else 1)
@@ -48,6 +75,8 @@ def pool(rng):
         return v if type(v) in (list, tuple, dict) else subtle(rng)
     if c < 0.55:
         return object()
+    if c < 0.6 and REGISTERED[0]:
+        return Registered(rng.randrange(3))
     return ('tok', rng.getrandbits(40))
 
 
@@ -106,6 +135,8 @@ def vary(old, rng):
         if c == 2:
             return set(items) | {0 if 0 not in old else 32}
         return list(items)
+    if type(old) is Registered:
+        return Registered(old.amount if rng.random() < 0.6 else old.amount + 1)
     if old is None:
         return rng.choice([None, 0, False, '', [], {}])
     if isinstance(old, bool):
